@@ -115,7 +115,7 @@ func c20fixture(c *Ctx, rng *rand.Rand) (*model.Batch, *model.Seg, []byte, bool)
 
 // C20 part A: every balanced sequence of AddRef/DecRef/Close up to the bound.
 func c20seq(c *Ctx) {
-	maxAdd := c.N(4, 6) // length <= 2*maxAdd+1
+	maxAdd := c.N(4, 7) // length <= 2*maxAdd+1
 	rng := c.Rng(0)
 	if !c.Case("fixture", map[string]interface{}{"max_addrefs": maxAdd}) {
 		return
